@@ -86,14 +86,58 @@ Fixpoint kinds_match (ps : list tm) (bs : list (vkind * N)) : bool :=
   | _, _ => false
   end.
 
+(** the value given for a query unknown of universe [lim] names nothing from a higher universe:
+    the answer's own variables it mentions (universes [us], bound at depth [k]) and its
+    placeholders live in universes [<= lim] *)
+Fixpoint univ_le (us : list N) (lim : N) (k : N) (t : tm) : bool :=
+  match t with
+  | Var _ d i => if d =? k then match nth_error us (N.to_nat i) with Some u => u <=? lim | None => false end else true
+  | CVar d i _ => if d =? k then match nth_error us (N.to_nat i) with Some u => u <=? lim | None => false end else true
+  | Node h cs =>
+      match h with
+      | HPlaceholder u _ | HLPlaceholder u _ | HCPlaceholder u _ => u <=? lim
+      | _ => true
+      end && forallb (univ_le us lim (under h k)) cs
+  end.
+
+(** entry by entry: what the answer says about the i-th query unknown stays within that unknown's universe *)
+Fixpoint entries_univ_ok (us : list N) (ps : list tm) (bs : list (vkind * N)) : bool :=
+  match ps, bs with
+  | p :: ps', b :: bs' => univ_le us (snd b) 0 p && entries_univ_ok us ps' bs'
+  | _, _ => true
+  end.
+
 (** [wf_answer q a]: one entry per query binder, of the binder's kind; every bound variable of
     the substitution belongs to the answer's own binders (with the right kind); the answer's
-    binders and the placeholders of its substitution live in universes the query can name. *)
+    binders and the placeholders of its substitution live in universes the query can name —
+    globally (below the query's universe count) and per unknown (the value of an unknown of
+    universe U mentions only answer variables and placeholders of universes <= U). *)
 Definition wf_answer (q : query) (a : answer) : bool :=
   kinds_match (a_subst a) (q_binders q)
   && forallb (closed_f (map fst (a_binders a)) 0) (a_subst a)
   && forallb (fun b => snd b <? q_universes q) (a_binders a)
-  && forallb (ph_below (q_universes q)) (a_subst a).
+  && forallb (ph_below (q_universes q)) (a_subst a)
+  && entries_univ_ok (map snd (a_binders a)) (a_subst a) (q_binders q).
+
+Lemma entries_univ_ok_nth us : forall ps bs i p vk u, entries_univ_ok us ps bs = true ->
+  nth_error ps i = Some p -> nth_error bs i = Some (vk, u) -> univ_le us u 0 p = true.
+Proof.
+  induction ps as [| p0 ps IH]; intros bs i p vk u H Hp Hb; [destruct i; discriminate |].
+  destruct bs as [| b0 bs]; [destruct i; discriminate |]. cbn [entries_univ_ok] in H.
+  apply andb_true_iff in H. destruct H as [H0 Hr]. destruct i as [| i]; cbn [nth_error] in *.
+  - inversion Hp; inversion Hb; subst. assumption.
+  - eapply IH; eassumption.
+Qed.
+
+(** [wf_answer_universes]: in a well-formed answer the value of every query unknown stays within
+    the universe of that unknown *)
+Lemma wf_answer_universes_lemma : forall q a i p vk u, wf_answer q a = true ->
+  nth_error (a_subst a) i = Some p -> nth_error (q_binders q) i = Some (vk, u) ->
+  univ_le (map snd (a_binders a)) u 0 p = true.
+Proof.
+  intros q a i p vk u H Hp Hb. unfold wf_answer in H. apply andb_true_iff in H. destruct H as [_ H].
+  eapply entries_univ_ok_nth; eassumption.
+Qed.
 
 Lemma kinds_match_nth ps : forall bs i vk u, kinds_match ps bs = true -> nth_error bs i = Some (vk, u) ->
   exists p, nth_error ps i = Some p /\ kind_of p = vk_kind vk.
@@ -163,6 +207,19 @@ Example wf_answer_applies_nonvacuous :
   /\ wf_answer ex_query ([(VTy General, 0)], [Node HLStatic []; Var STy 0 0]) = false
   /\ wf_answer ex_query ([(VTy General, 1)], [Node (HAdt 1) [Var STy 0 0]; Var STy 0 0]) = false
   /\ wf_answer ex_query ([], [Node (HAdt 1) [Var STy 0 0]; Node (HPlaceholder 1 0) []]) = false.
+Proof. repeat split; vm_compute; reflexivity. Qed.
+
+(** [exists<'a> { forall<T> { exists<X> { X: Foo<'a> } } }]: the query's unknowns are [X] (U1) and ['a] (U0);
+    guidance [for<?U1,?U0> [X := ^0.0, 'a := '^0.1]] is well-formed, [for<?U1,?U1> ...] (the lifetime
+    unknown of U0 sent to a variable of U1) is not. *)
+Definition ex_query2 : query :=
+  (2, ([(VTy General, 1); (VLt, 0)],
+       Node HImplies [Node HList []; Node HDomainGoal [Node HHolds [Node HImplemented [Node (HTraitRef 2) [Var STy 0 0; Var SLt 0 1]]]]])).
+
+Example wf_answer_universes_nonvacuous :
+  wf_answer ex_query2 ([(VTy General, 1); (VLt, 0)], [Var STy 0 0; Var SLt 0 1]) = true
+  /\ wf_answer ex_query2 ([(VTy General, 1); (VLt, 1)], [Var STy 0 0; Var SLt 0 1]) = false
+  /\ wf_answer ex_query2 ([(VTy General, 1)], [Var STy 0 0; Node (HLPlaceholder 1 0) []]) = false.
 Proof. repeat split; vm_compute; reflexivity. Qed.
 
 (** ** Canonicalization produces well-formed queries *)
